@@ -1,5 +1,5 @@
 """C05 - compaction changes layout, never content: the hand-over's ordering facts."""
-from . import allocspec, handoverspec, indexkeyspec
+from . import allocspec, handovercrash, handoverspec, indexkeyspec
 from ._util import pick
 
 FILTERS = []
@@ -8,8 +8,9 @@ FILTERS = []
 def obligations(ctx):
     ho = handoverspec.commit_batch(ctx)
     out = pick(ho, [("B-1", "exists-before-index"), ("B-2", "index-before-livelist"),
-                     ("B-2b", "index-under-flush-lock"), ("B-2c", "retire-before-insert"),
+                     ("B-2b", "index-under-flush-lock"), ("B-2c", "retire-before-insert"), ("B-2d", "ok-means-live"),
                      ("B-3", "drained-only")])
     out += pick(indexkeyspec.key_agreement(ctx), [("B-4", "retire-key")])
     out += pick(allocspec.plan_output_ids(ctx), [("B-5", "fresh-output-id")])
+    out += pick(handovercrash.crash_consistency(ctx), [("B-6", "handover-crash")])
     return out
